@@ -35,9 +35,11 @@ def canon(o):
         return {"f": struct.pack(">d", o).hex()}
     if isinstance(o, (bytes, bytearray)):
         return {"b": bytes(o).hex()}
-    if isinstance(o, dict):
+    import collections.abc as _abc
+    import array as _array
+    if isinstance(o, _abc.Mapping):
         return {"d": [[canon(k), canon(v)] for k, v in o.items()]}
-    if isinstance(o, list):
+    if isinstance(o, (list, _array.array)):
         return [canon(x) for x in o]
     if isinstance(o, tuple):
         return {"t": [canon(x) for x in o]}
@@ -79,8 +81,12 @@ def jsonable(o):
     if isinstance(o, (bytes, bytearray)):
         b = bytes(o)
         return {"bytes": b.hex() if len(b) <= 64 else b[:64].hex() + f"...({len(b)})"}
-    if isinstance(o, dict):
+    import collections.abc as _abc
+    import array as _array
+    if isinstance(o, _abc.Mapping):
         return {str(k): jsonable(v) for k, v in o.items()}
+    if isinstance(o, _array.array):
+        return {"array.array": list(o)}
     if isinstance(o, (list, tuple)):
         r = [jsonable(x) for x in o]
         return {"tuple": r} if isinstance(o, tuple) else r
